@@ -424,7 +424,7 @@ class AgentExecutingComponent(rpu.AgentComponent):
         if td['environment']:
             ret += '\n# task env settings\n'
             for key, val in td['environment'].items():
-                ret += 'export %s="%s"\n' % (key, val)
+                ret += 'export %s=%s\n' % (key, ru.sh_quote(val))
 
         return ret
 
